@@ -127,10 +127,12 @@ def x1(run: Run, prog: Program, cy: CyProgram):
             kc = role
             inst = f"{kname}~{pname}:{role}"
             if role not in ksites or role not in psites:
-                run.oblige("X1", inst, False)
-                run.add("X1", f"{kname}/{pname}/{role}/missing", kf.where,
-                        f"the counter forming the {role} of the result was not found "
-                        f"in both siblings {kname} / {pname}")
+                # one of the siblings does not count in a loop nest of its own
+                # (vectorised, or delegated to a helper): the two cannot be
+                # compared syntactically - no verdict
+                run.unknowns.append(
+                    f"X1 {kname}~{pname}: the {role} is not counted by a loop nest in "
+                    f"both siblings; agreement not decided")
                 continue
             a, b = _canon(ksites[kc]), _canon(psites[kc])
             kb = dict(kbinds)
@@ -318,11 +320,34 @@ def x7(run: Run, prog: Program):
                     continue
                 n += 1
                 lst = c.args[0].id
-                restored = any(isinstance(x, ast.Call) and
-                               ast.unparse(x.func) in ("np.argsort", "numpy.argsort",
-                                                       "np.searchsorted", "np.lexsort")
-                               and x.args and lst in ast.unparse(x.args[0])
-                               for x in ast.walk(f.node))
+                def _restores(fnode, name, depth=0):
+                    for x in ast.walk(fnode):
+                        if not isinstance(x, ast.Call):
+                            continue
+                        if ast.unparse(x.func) in ("np.argsort", "numpy.argsort",
+                                                   "np.searchsorted", "np.lexsort") \
+                                and x.args and name in ast.unparse(x.args[0]):
+                            return True
+                        # a helper that is handed the list and computes the order
+                        if depth < 2 and any(isinstance(a_, ast.Name) and a_.id == name
+                                             for a_ in x.args):
+                            h = None
+                            if isinstance(x.func, ast.Name):
+                                r = prog.resolve_name(f.module, x.func.id)
+                                h = r[1] if r and r[0] == "func" else None
+                            elif isinstance(x.func, ast.Attribute):
+                                h = prog.lookup(C, x.func.attr)
+                            if h is not None and h is not f:
+                                ps = h.params
+                                idx = [i_ for i_, a_ in enumerate(x.args)
+                                       if isinstance(a_, ast.Name) and a_.id == name]
+                                off = 1 if h.kind in ("method",) else 0
+                                for i_ in idx:
+                                    if i_ + off < len(ps) and \
+                                            _restores(h.node, ps[i_ + off], depth + 1):
+                                        return True
+                    return False
+                restored = _restores(f.node, lst)
                 presorted = any(isinstance(x, ast.Call) and
                                 ast.unparse(x.func) in ("sorted", "np.sort") and x.args
                                 and lst in ast.unparse(x.args[0]) for x in ast.walk(f.node))
